@@ -230,3 +230,112 @@ def rule_D2(ctx):
         elif f["name"].startswith("ok_"):
             r.neg_control(f["name"], not hit)
     return r
+
+
+# --------------------------------------------------------------------------------------- D5
+
+from . import ai as _ai  # noqa: E402
+
+
+def d5_analyse(F, f):
+    """Accumulator strings (pushed to character by character) that are decoded by a workspace function must be emptied
+    before they accumulate again.  Returns (violations, accumulators, decode sites)."""
+    mir = f["mir"]
+    # accumulators: String locals that receive String::push
+    accs = set()
+    for b in mir["blocks"]:
+        t = b["term"]
+        if t["k"] == "Call" and t.get("def") in ("alloc::string::String::push", "alloc::string::String::push_str"):
+            pass
+    viol = []
+    decodes = set()
+    pushes = set()
+
+    def local_of_ref(v):
+        if isinstance(v, tuple) and v and v[0] == "r" and v[1].count(".") == 0:
+            return v[1]
+        return None
+
+    def on_call(interp, env, ts, bi, t):
+        d = t.get("def") or ""
+        args = [interp.operand(a, env) for a in t["args"]]
+        consumed = ts or frozenset()
+        if d in ("alloc::string::String::push", "alloc::string::String::push_str") and args:
+            l = local_of_ref(args[0])
+            if l:
+                pushes.add(l)
+                if l in consumed:
+                    viol.append((l, bi, loc(t)))
+            return None
+        if d in ("alloc::string::String::as_str", "core::ops::deref::Deref::deref", "alloc::string::String::as_mut_str") and args:
+            l = local_of_ref(args[0])
+            if l and "alloc::string::String" in mir["locals"][int(l[1:])]["ty"]:
+                return [(("strof", l), consumed, None)]
+            return None
+        if d in ("alloc::string::String::clear",) and args:
+            l = local_of_ref(args[0])
+            if l:
+                return [(_ai.TOP, frozenset(consumed - {l}), None)]
+            return None
+        g = F.fns.get(t.get("resolved") or d)
+        if g is not None and g["crate"] in ("garnish_lang_simple_data", "gfixture") and not t.get("exp"):
+            hit = [a[1] for a in args if isinstance(a, tuple) and a and a[0] == "strof"]
+            if hit:
+                decodes.add((bi, hit[0]))
+                return [(_ai.TOP, frozenset(consumed | set(hit)), None)]
+        # a call that writes the accumulator local itself (String::new() assigned to it) resets it
+        if not t["dest"]["p"]:
+            k = "_%d" % t["dest"]["l"]
+            if k in consumed:
+                return [(_ai.TOP, frozenset(consumed - {k}), None)]
+        return None
+
+    def on_assign(interp, env, ts, bi, st):
+        consumed = ts or frozenset()
+        if not st["place"]["p"]:
+            k = "_%d" % st["place"]["l"]
+            if k in consumed:
+                return (frozenset(consumed - {k}),)
+        return None
+
+    it = _ai.Interp(f, hooks={"on_call": on_call, "on_assign": on_assign, "track": lambda k: ".*" not in k}, init_ts=frozenset(), cap=60000)
+    it.run()
+    seen = set()
+    out = []
+    for l, bi, where in viol:
+        if (l, bi) in seen:
+            continue
+        seen.add((l, bi))
+        nm = mir["locals"][int(l[1:])].get("name", l)
+        out.append((nm, where))
+    return out, pushes, decodes, it.visited
+
+
+def rule_D5(ctx):
+    F = ctx.F
+    r = RuleResult("D5", "escape-buffer-reset: in the literal parsers an accumulator that has been decoded is emptied before it accumulates the next escape")
+    fns = [f for f in F.fns.values() if f["crate"] == "garnish_lang_simple_data" and "::data::parsing::" in f["path"] and f["kind"] != "Closure"]
+    r.floor("functions in data::parsing", len(fns), 4)
+    n_dec = 0
+    for f in sorted(fns, key=lambda f: f["path"]):
+        try:
+            viol, pushes, decodes, states = d5_analyse(F, f)
+        except _ai.StateCapExceeded as e:
+            r.finding(f["path"], "state-cap", "-", "analysis exceeded its state cap (%s): failing closed" % e)
+            continue
+        n_dec += len(decodes)
+        r.examine((f["path"],), bool(decodes), {"fn": f["path"], "accumulators": len(pushes), "decode_sites": len(decodes), "abstract_states": states} if decodes else None)
+        n = 0
+        for nm, where in viol:
+            n += 1
+            r.finding(f["path"], "stale-accumulator:%s#%d" % (nm, n), where, "`%s` is pushed to again after it was decoded, without being emptied in between: the next escape is decoded from the digits of all previous ones" % nm)
+    r.floor("accumulator decode sites", n_dec, 1)
+    for f in F.fns_in("gfixture::d5::"):
+        if f["kind"] == "Closure":
+            continue
+        viol, _p, _d, _s = d5_analyse(F, f)
+        if f["name"].startswith("ctl_"):
+            r.control(f["name"], bool(viol))
+        elif f["name"].startswith("ok_"):
+            r.neg_control(f["name"], not viol)
+    return r
